@@ -39,11 +39,13 @@ META = dict(
     engine="E2-hist", level="model_checking",
     technique="explicit-state search over all histories of attribute fetch / call / variable read / write / addressof / "
               "dlclose / dir on a really-unloaded private copy of a test library, both ABI modes, crash-contained",
-    text="All histories up to depth 5 (thorough: 6, no merging) over 11 operations on a library with two functions and "
-         "two globals, in-line and out-of-line ABI mode; each history dlopen()s its own copy of the shared object so the "
-         "first dlclose unmaps it (verified with RTLD_NOLOAD).  After the close every variable access and every fetch "
-         "of a symbol not fetched before must raise, repeated closes must be silent, and the process must survive; a "
-         "dead worker is reported as a violation with the journalled history.",
+    text="All histories up to depth 5 over 11 operations on a library with two functions and two globals, in-line and "
+         "out-of-line ABI mode (quick: merging by model state + visible caches beyond depth 2; thorough: no merging up "
+         "to depth 5, plus depth 8 with merging beyond 3); each history dlopen()s its own copy of the shared object so "
+         "the first dlclose unmaps it (verified with RTLD_NOLOAD).  After the close every variable access and every "
+         "fetch of a symbol not fetched before must raise, repeated closes (explicit, and the implicit one when the "
+         "library object is freed) must be harmless, and the process must survive; a dead worker is reported as a "
+         "violation with the journalled history.",
     note="calling a function object that was fetched before the close is outside the statement and is not done; what "
          "lib.f / addressof return for symbols already fetched before the close is not compared")
 
@@ -74,15 +76,9 @@ def _setup():
     # where the private copies are written (each is unlinked right after dlopen): memory-backed if possible
     d = None
     if os.path.isdir("/dev/shm") and os.access("/dev/shm", os.W_OK):
-        import atexit
         import tempfile
         d = tempfile.mkdtemp(prefix="verif-c37-", dir="/dev/shm")
-        pid = os.getpid()
-
-        def _rm():
-            if os.getpid() == pid:
-                shutil.rmtree(d, ignore_errors=True)
-        atexit.register(_rm)
+        _state["rmdir"] = (os.getpid(), d)       # removed by _teardown() (vlib.main leaves through os._exit)
     _state["copydir"] = d or build.scratch_shared()
     import warnings
     import cffi
@@ -106,6 +102,14 @@ def _setup():
     spec.loader.exec_module(m)
     _state["ool"] = m.ffi
     _state["n"] = 0
+
+
+def _teardown():
+    pid, d = _state.get("rmdir", (None, None))
+    if d and pid == os.getpid():
+        _flush()
+        shutil.rmtree(d, ignore_errors=True)
+        _state.clear()
 
 
 def _private_copy():
@@ -421,7 +425,9 @@ def run_contained(cfgs, depth, d0, split):
 
     def drain(items):
         done = {}
-        for item, r in pool.pmap(_work, [[it] for it in items]):
+        # a few blocks per worker (interleaved): one pipe round trip per block, not per sub-tree
+        nb = max(1, min(len(items), pool.NPROC * 4))
+        for item, r in pool.pmap(_work, [items[k::nb] for k in range(nb)]):
             if isinstance(r, pool.WorkerError):
                 raise InfraError(r.tb)
             if isinstance(r, pool.Crash):
@@ -452,9 +458,16 @@ def run_contained(cfgs, depth, d0, split):
 
 def run(ctx):
     _setup()
+    try:
+        return _run(ctx)
+    finally:
+        _teardown()
+
+
+def _run(ctx):
     # (name, depth, d0, length of the prefixes that become worker jobs; merging happens inside one job)
     if ctx.quick:
-        passes = [("d5", 5, 3, 1)]
+        passes = [("d5", 5, 2, 1)]
     else:
         passes = [("d5-unmerged", 5, 5, 2), ("d8", 8, 3, 1)]
     cfgs = [(m,) for m in MODES]
@@ -533,6 +546,13 @@ def _sig(info):
 
 def replay(detail):
     _setup()
+    try:
+        return _replay(detail)
+    finally:
+        _teardown()
+
+
+def _replay(detail):
     if "history" not in detail or detail.get("cfg") is None:
         last = detail.get("last_history")
         if not last:
